@@ -77,7 +77,9 @@ static unsigned long sv_scalar_align (int kind) { return sv_scalar_size (kind); 
 static int sv_scalar_class (int kind) { /* psABI 3.2.3 "Classification"; long double handled by the caller */
   return kind == SV_FLOAT || kind == SV_DOUBLE ? SV_SSE : kind == SV_LDOUBLE ? SV_X87 : SV_INTEGER;
 }
-static unsigned long sv_round_up (unsigned long v, unsigned long a) { return (v + a - 1) / a * a; }
+/* every alignment and every scalar size of this ABI is a power of two (fig. 3.1): rounding and the position
+   inside a storage unit are written with masks (cheap for a SAT solver; same values as / and %) */
+static unsigned long sv_round_up (unsigned long v, unsigned long a) { return (v + a - 1) & ~(a - 1); }
 
 /* Layout of an aggregate (recursively of its nested aggregates). */
 static void sv_layout (sv_agg *a) {
@@ -105,7 +107,7 @@ static void sv_layout (sv_agg *a) {
       pos = sv_round_up (pos, m->align * 8);
       m->bitpos = pos;
     } else { /* bit-field */
-      if (pos % (m->size * 8) + (unsigned long) m->width > m->size * 8) pos = sv_round_up (pos, m->align * 8);
+      if ((pos & (m->size * 8 - 1)) + (unsigned long) m->width > m->size * 8) pos = sv_round_up (pos, m->align * 8);
       m->bitpos = pos;
       pos += (unsigned long) m->width;
       if (m->named && align < m->align) align = m->align;
@@ -113,7 +115,7 @@ static void sv_layout (sv_agg *a) {
     if (maxbits < pos) maxbits = pos;
   }
   a->align = align;
-  a->size = sv_round_up ((maxbits + 7) / 8, align);
+  a->size = sv_round_up ((maxbits + 7) >> 3, align);
 }
 
 /* ---- classification, psABI 3.2.3 ---- */
@@ -159,7 +161,7 @@ static int sv_classify_agg (const sv_agg *a, unsigned long base, int cls[2], int
     if (m->width >= 0 && !m->named && (a->is_union || (nested && m->width > 0))) *unmodelled = 1;
     if (m->width == 0) continue; /* zero-width bit-fields are ignored */
     if (m->width > 0) {
-      for (unsigned long q = at / 64; q <= (at + (unsigned long) m->width - 1) / 64 && q < 2; q++)
+      for (unsigned long q = at >> 6; q <= (at + (unsigned long) m->width - 1) >> 6 && q < 2; q++)
         own[q] = sv_merge (own[q], SV_INTEGER);
       continue;
     }
